@@ -34,7 +34,7 @@ LEVEL_NOTE = ("Trusted: Lean kernel; hand-written model of h11's request validat
               "that method, target and header list, Host first); its parser is lock-stepped against the independent Python parser on the wire "
               "bytes of every generated request. The sync back end's partial-send loop is a theorem too (BackendProps). Partial: bodies are "
               "covered by the chunked / Content-Length writer theorems, not by a parser round trip; transparent re-sends are covered under C14.")
-TECHNIQUE = "Lean 4 proof about writer model + independent parser + differential execution"
+TECHNIQUE = "Lean 4 proof about writer model (incl. write/parse round trip of the request head and the back end's partial-send loop) + independent parser + differential execution"
 DESIGN_REF = "§5 C03"
 
 TOKEN = b"abcdefghijklmnopqrstuvwxyzABCDEFGHIJKLMNOPQRSTUVWXYZ0123456789-_.!#$%&'*+^`|~"
